@@ -153,6 +153,11 @@ def check_input(c: Dict[str, Any]) -> Tuple[List[Any], Dict[str, Any]]:
     for m in p.messages:
         hd = {k_.lower(): v for k_, v in m['headers']}
         own = b'x-origin-stub' not in hd
+        if own_error:
+            # "sends a syntactically valid HTTP error response and closes": the error response is the last thing on the connection
+            out.append(('output-after-own-error-response', feat, {'codes': [x['code'] for x in p.messages], 'bytes': got[:200]},
+                        'nothing after the error response'))
+            break
         if own and hd.get(b'content-encoding') == b'gzip':
             try:
                 gzip.decompress(m['body'])
@@ -266,6 +271,10 @@ MUT = st.one_of(
               st.sampled_from([b'Content-Length: 9', b'Content-Length: abc', b'Content-Length: -', b'Content-Length: 99999999999999999999',
                                b'Content-Length: 1e3', b'Content-Length:\t'])).map(list),
     st.tuples(st.just('replace'), st.just(b'http://'), st.sampled_from([b'ftp://', b'https://', b'gopher://', b'://', b'http:/', b'HTTP://'])).map(list),
+    st.tuples(st.just('replace'), st.just(b'example.test'),
+              st.sampled_from([b'example.test:65536', b'example.test:-1', b'example.test:99999', b'example.test:0', b'example.test:',
+                               b'example.test:abc', b'[::1]:70000', b'example.test:65535', b'example.test:080', b'[::1', b'a@b@example.test',
+                               b'example.test:4294967376', b'example..test', b'[fe80::1%25eth0]:80'])).map(list),
     st.tuples(st.just('replace'), st.just(b'HTTP/1.1'), st.sampled_from([b'HTTP/9.9', b'HTTP/1', b'HTTP/2.0', b'http/1.1', b'HTTP/1.1 x', b''])).map(list),
     st.tuples(st.just('replace'), st.sampled_from([b'GET ', b'POST ', b'PUT ']), st.sampled_from([b'BREW ', b'get ', b' ', b'G\x00T ', b'\xff\xfe '])).map(list),
     st.tuples(st.just('replace'), st.just(b'/'), st.sampled_from([b'/\xff\xfe', b'/\xc3\x28', b'/%ff', b'/\x00', b'/ /', b'/\r'])).map(list),
@@ -283,7 +292,7 @@ def input_cases(draw: Any, what: str) -> Dict[str, Any]:
     if what == 'random':
         c['data'] = draw(st.one_of(st.binary(max_size=120),
                                    st.lists(st.sampled_from([b'GET', b'CONNECT', b' ', b'/', b'http://', b'h', b':', b'80', b'HTTP/1.1', b'\r\n',
-                                                             b'\n', b'Host', b'Content-Length', b'0', b'5', b'\x00', b'\xff', b'Transfer-Encoding',
+                                                             b'\n', b'Host', b'Content-Length', b'0', b'5', b'65536', b'-1', b'\x00', b'\xff', b'Transfer-Encoding',
                                                              b'chunked', b'*', b'?', b'#', b'[', b']', b'@']), max_size=24).map(b''.join)))
     else:
         form = draw(st.sampled_from(['origin', 'absolute']))
